@@ -168,13 +168,13 @@ check("C18", "model_checking",
       "in-memory MPC and shard networks with scripted peers; BFS over histories of 13 request kinds (create start/finish with "
       "accept/reject, prepare helper/shard, inputs, injected task + task returns ok/err, status with every peer-shard answer, "
       "shard status with every claimed status, complete with shard accept/reject, poll parked completion, kill - including kill "
-      "while a completion request is parked, after which the abandoned request, the end of the killed query's task and any new "
+      "while a completion request or a create request is parked, after which the abandoned request, the end of the killed query's task and any new "
       "query are interleaved in every order) to depth 9 (12); failing transitions are recorded and the search continues; "
       "state rebuilt by replaying the history on a fresh Processor; canonical key = reference-model state; every call's result "
       "class and the stored status are compared with the model. states = distinct model states reached; transitions = calls replayed.",
       [{"name": "lifecycle", "config": "A", "test": "query::processor::verif::c18::run",
         "require": {"any": {"states": 100}}}],
-      assumptions=["kill is not issued while a create request is parked at the peers; at most one abandoned completion request at a time",
+      assumptions=["at most one abandoned completion request and one abandoned create request at a time; no further create request while an abandoned one is parked at the peers",
                    "the real executor started by receive_inputs never finishes against the scripted peers; finished tasks are "
                    "modelled by an injected RunningQuery as in the repository's unit tests"],
       exhaustive=True, engine="E4 bfs",
